@@ -73,6 +73,9 @@ KERNELS = {
     "ordered_inner_map_result_size": {"owner": "C19"},
     "ordered_inner_map_left_unique": {"owner": "C19", "mutated": [2, 3]},      # returns None
     "ordered_inner_map": {"owner": "C19", "mutated": [2, 3]},                  # returns None
+    # KT4A  ("module": the kernel lives in exetera/core/<module>.py instead of operations.py)
+    "fast_csv_reader": {"owner": "C05", "mutated": [2, 3], "module": "csv_reader_speedup"},   # column_inds, column_vals
+    "transform_to_values": {"owner": "C06"},                                   # returns a list of arrays
 }
 C08_NOSRC = ("apply_spans_count", "apply_spans_index_of_first", "apply_spans_index_of_last")
 C08_REDUCE = ("apply_spans_count", "apply_spans_first", "apply_spans_last", "apply_spans_max", "apply_spans_min",
@@ -1101,8 +1104,213 @@ def random_c14(rng, n_cases):
     return out
 
 
-DERIVE = {"C14": derive_c14, "C08": derive_c08, "C09": derive_c09, "C04": derive_c04, "C16": derive_c16}
-RANDOM = {"C14": random_c14, "C06": random_c06, "C16": random_c16, "C08": random_c08, "C09": random_c09, "C04": random_c04, "C03": random_c03, "C17": random_c17, "C19": random_c19}
+# ----------------------------------------------------------------------------------------------------------------------
+# KT4A.  C05: fast_csv_reader (csv_reader_speedup.py) on windows of CSV text, staging arrays of every size;  C06:
+# transform_to_values on staging arrays
+# ----------------------------------------------------------------------------------------------------------------------
+CSV_Q, CSV_S, CSV_N, CSV_W = 34, 44, 10, 32
+
+
+def csv_reader_safe(source, start_index, column_inds, column_vals, column_offsets, has_header, q=CSV_Q, sep=CSV_S, nl=CSV_N,
+                    ws=CSV_W):
+    """does every subscript of fast_csv_reader stay in range?  The kernel itself on Python lists (a list raises IndexError
+    exactly where numpy does, and wraps a negative subscript the same way); an explicit `raise Exception` is defined
+    behaviour (safe)."""
+    inds = [list(r) for r in column_inds]
+    vals = list(column_vals)
+
+    def at(a, i):
+        if not -len(a) <= i < len(a):
+            raise IndexError
+        return a[i]
+    try:
+        if not inds:
+            raise IndexError                       # `.shape[1]` of an array without rows is not represented
+        maxrow = len(inds[0]) - 1
+        index, end_line_at, col, row, escaped, cand, count = start_index, start_index - 1, 0, -1 if has_header else 0, False, False, 0
+        cstart = at(at(inds, col), row) if row >= 0 else 0
+        inds_full = vals_full = False
+        col_offset, col_cnt = 0, at(column_offsets, 1)
+        while index < len(source) and at(source, index) == ws:
+            index += 1
+        if index == len(source):
+            return True
+        cell_at = index
+        steps = 0
+        while True:
+            steps += 1
+            if steps > len(source) + 8:
+                return False                        # (cannot happen: every iteration advances `index`)
+            write = end_cell = end_line = False
+            c = at(source, index)
+            if c == sep:
+                end_cell, write = (True, False) if not escaped else (False, True)
+            elif c == nl:
+                if not escaped:
+                    end_cell = end_line = True
+                    end_line_at = index
+                else:
+                    write = True
+            elif c == q:
+                if not escaped:
+                    if index != cell_at:
+                        return True                 # raise Exception
+                    escaped = True
+                elif cand:
+                    write, cand = True, False
+                elif index + 1 < len(source) and at(source, index + 1) == q:
+                    cand = True
+                elif index + 1 < len(source) and (at(source, index + 1) == sep or at(source, index + 1) == nl):
+                    escaped = False
+                elif index + 1 == len(source):
+                    pass
+                else:
+                    return True                     # raise Exception
+            else:
+                write = True
+            if write and row >= 0:
+                k = col_offset + cstart + count
+                at(vals, k)
+                if k < 0:
+                    return False                    # a negative subscript of the flat array: an error branch of the translation
+                vals[k] = c
+                count += 1
+                if cstart + count >= col_cnt:
+                    vals_full = True
+            if end_cell:
+                if row >= 0:
+                    r = at(inds, col)
+                    at(r, row + 1)
+                    r[row + 1] = cstart + count
+                if end_line:
+                    row += 1
+                    col = 0
+                    if row == maxrow:
+                        inds_full = True
+                else:
+                    col += 1
+                col_offset = at(column_offsets, col)
+                col_cnt = at(column_offsets, col + 1) - col_offset
+                if col < 0 or col + 1 < 0:
+                    return False
+                cstart = at(at(inds, col), row)
+                count = 0
+                while index + 1 < len(source) and at(source, index + 1) == ws:
+                    index += 1
+                cell_at = index + 1
+            index += 1
+            if index == len(source) or inds_full or vals_full:
+                return True
+    except IndexError:
+        return False
+
+
+def csv_gcase(src, start, inds, vals, offs, has_header, frm):
+    safe = start >= 0 and csv_reader_safe(src, start, inds, vals, offs, has_header)
+    return gcase("fast_csv_reader",
+                 [arr(src), {"int": start}, arr2(inds), arr(vals), arr(offs), {"bool": bool(has_header)},
+                  {"int": CSV_Q}, {"int": CSV_S}, {"int": CSV_N}, {"int": CSV_W}],
+                 unsafe=not safe, fuel=len(src) + 8, _from=frm)
+
+
+def derive_c05(case):
+    if case.get("op") != "csv_kernel" or not case.get("inds") or len({len(r) for r in case["inds"]}) != 1:
+        return None
+    return csv_gcase(case["src"], case["start"], case["inds"], case["vals"], case["offs"], case["has_header"], "C05")
+
+
+def random_c05(rng, n_cases):
+    out = []
+    cells = [b"", b"a", b"ab", b"abc", b" a", b"a ", b"  ", b'"a"', b'"a,b"', b'"a\nb"', b'"a""b"', b'""', b'"a" ', b'a"b', b'"a"b',
+             b"1", b"22", b'"', b'"abc', b' "a"', b"x y"]
+    for t in range(n_cases):
+        ncols = rng.randrange(1, 4)
+        nrec = rng.choice([0, 1, 2, 3, rng.randrange(1, 7)])
+        text = b""
+        for r in range(nrec):
+            k = ncols if rng.random() < 0.85 else rng.randrange(1, ncols + 2)          # a record with too few / too many cells
+            text += b",".join(rng.choice(cells) for _ in range(k))
+            text += b"\n" if (r + 1 < nrec or rng.random() < 0.8) else b""
+            if rng.random() < 0.1:
+                text += rng.choice([b"\n", b"  ", b" \n"])
+        src = list(text)
+        maxrow = rng.choice([1, 2, 3, nrec + 1, rng.randrange(1, 9)])
+        budgets = [rng.choice([1, 2, 3, 4, 8, 16, 40]) for _ in range(ncols)]
+        offs = [0]
+        for b in budgets:
+            offs.append(offs[-1] + b)
+        has_header = rng.random() < 0.5
+        # staging arrays as the driver hands them over: zeros on the first call of a window, the previous call's content
+        # (stale offsets, first entry of a row = where the column's bytes continue) on a resumed one
+        if rng.random() < 0.7:
+            inds = [[0] * (maxrow + 1) for _ in range(ncols)]
+        else:
+            inds = [[rng.randrange(0, 4)] + [rng.randrange(0, 6) for _ in range(maxrow)] for _ in range(ncols)]
+        vals = [0] * offs[-1] if rng.random() < 0.7 else [rng.randrange(0, 256) for _ in range(offs[-1])]
+        start = 0 if rng.random() < 0.6 else rng.randrange(0, len(src) + 2)
+        what = rng.randrange(14)
+        if what == 0:
+            offs = offs[:-1]                                   # column_offsets one entry short
+        elif what == 1:
+            vals = vals[:rng.randrange(0, len(vals) + 1)]      # column_vals shorter than the budgets
+        elif what == 2 and ncols > 1:                          # (an array WITHOUT rows is not representable: `shape1E`)
+            inds = inds[:-1]                                   # fewer staging rows than columns in the text
+        elif what == 3:
+            maxrow = 0
+            inds = [[0] for _ in range(ncols)]                 # no room for a single row
+        out.append(csv_gcase(src, start, inds, vals, offs, has_header, "random"))
+    return out
+
+
+def transform_to_values_safe(cinds, coffs, ic, rows):
+    if not _inr(ic, len(coffs)):
+        return False
+    if rows > 0 and not (_inr(ic, len(cinds)) and rows + 1 <= len(cinds[ic])):
+        return False
+    return True
+
+
+def random_c06_kt4a(rng, n_cases):
+    out = []
+    words = [b"", b"a", b"ab", b"2020-01-01", b"x y", b"12:00"]
+    for t in range(n_cases):
+        ncols = rng.randrange(1, 4)
+        nrows = rng.choice([0, 1, 2, 3, rng.randrange(1, 8)])
+        cinds, vals, coffs = [], [], [0]
+        for c in range(ncols):
+            row, buf = [0], []
+            for _ in range(nrows):
+                buf.extend(rng.choice(words))
+                row.append(len(buf))
+            cinds.append(row + [rng.randrange(0, 5) for _ in range(rng.randrange(0, 3))])
+            vals.extend(buf + [88] * rng.randrange(0, 3))
+            coffs.append(len(vals))
+        width = max(len(r) for r in cinds)
+        cinds = [r + [0] * (width - len(r)) for r in cinds]
+        ic = rng.randrange(0, ncols)
+        rows = nrows if rng.random() < 0.8 else rng.randrange(0, nrows + 3)
+        what = rng.randrange(12)
+        if what == 0:
+            ic = ncols + rng.randrange(0, 2)                    # the column subscript beyond the staging arrays
+        elif what == 1:
+            vals = vals[:rng.randrange(0, len(vals) + 1)]       # slices are clamped: never an error
+        elif what == 2:
+            cinds = [[x - rng.randrange(0, 3) for x in r] for r in cinds]      # negative slice bounds: Python's rule
+        elif what == 3:
+            coffs = [x - 2 for x in coffs]
+        out.append(gcase("transform_to_values", [arr2(cinds), arr(vals), arr(coffs), {"int": ic}, {"int": rows}],
+                         unsafe=not transform_to_values_safe(cinds, coffs, ic, rows), _from="random"))
+    return out
+
+
+def random_c06_all(rng, n_cases):
+    """the cases of `random_c06` for a seed are unchanged (same count, drawn first); the KT4A kernels come after them"""
+    first = random_c06(rng, n_cases)
+    return first + random_c06_kt4a(rng, max(54, n_cases // 5))
+
+
+DERIVE = {"C05": derive_c05, "C14": derive_c14, "C08": derive_c08, "C09": derive_c09, "C04": derive_c04, "C16": derive_c16}
+RANDOM = {"C05": random_c05, "C14": random_c14, "C06": random_c06_all, "C16": random_c16, "C08": random_c08, "C09": random_c09, "C04": random_c04, "C03": random_c03, "C17": random_c17, "C19": random_c19}
 
 
 def extra_cases(owner, cases, tier, rng):
@@ -1167,6 +1375,8 @@ def _canon(np, r):
     if isinstance(r, tuple):
         return [_canon(np, x) for x in r]
     if isinstance(r, np.ndarray):
+        if r.ndim == 2:
+            return [[int(x) for x in row] for row in r.tolist()]        # a 2-D array written in place (KT4A: column_inds)
         if r.dtype == bool:
             return [bool(x) for x in r.tolist()]
         return [int(x) for x in r.tolist()]
@@ -1184,6 +1394,10 @@ def impl(case):
     if case.get("_unsafe") and e["jit"]:
         return {"skipped": "a call that may subscript out of range is not executed in the compiled mode"}
     np, ops = e["np"], e["ops"]
+    module = KERNELS.get(case["kernel"], {}).get("module")
+    if module is not None:
+        import importlib
+        ops = importlib.import_module("exetera.core." + module)
     fn = getattr(ops, case["kernel"])
     args = [_decode(np, a) for a in case["args"]]
     ret = fn(*args)
